@@ -252,7 +252,8 @@ func init() {
 			}
 			return []*engine.Scenario{s1, s2, s3}
 		},
-		Extra: func(tier string) ([]engine.Failure, map[string]any) { return staticRule() },
+		Extra:       func(tier string) ([]engine.Failure, map[string]any) { return staticRule() },
+		NoReproduce: true,
 		Assumptions: []string{
 			"every explored transition is executed three times on sibling branches of one parent state; all 19 mounted stores, the result/error string and the ABCI events are compared; every work item is additionally replayed on a second, separately constructed App and must reach the byte-identical state",
 			"exhaustive for everything the harness owns (order of transactions, time, inputs); for Go map-iteration order this is repetition (the runtime picks the order per loop), supported by the static rule - this part is NOT exhaustive",
